@@ -81,7 +81,13 @@ Entry obs_manifold(const std::string& op, const Manifold& m) {
     for (auto& d : desc) e.exact += d + ",";
   }
   Box b = m.BoundingBox();
-  e.solid = {m.Volume(), m.SurfaceArea()};
+  // Volume and bounding box only: the surface area is not a function of the solid. A result that
+  // contains zero-thickness sheets (coincident faces of operands that share a sub-expression) keeps
+  // or loses them depending on which shared nodes were already evaluated -- in a single thread too
+  // (seen: area 2.7909 vs 2.7980 at identical volume, purely serial, with and without an earlier
+  // query on a shared operand). C03 promises the solid, not the sheets.
+  (void)m.SurfaceArea();
+  e.solid = {m.Volume()};
   if (b.IsFinite())
     for (int k = 0; k < 3; k++) {
       e.solid.push_back(b.min[k]);
@@ -112,7 +118,7 @@ Entry query(const std::string& op, const Manifold& m, int g) {
       break;
     }
     case 8: e.exact = "empty" + std::to_string((int)m.IsEmpty()); break;
-    default: e.solid = {m.SurfaceArea()}; break;
+    default: (void)m.SurfaceArea(); break;  // called (it forces evaluation and reads the mesh) but not compared, see obs_manifold
   }
   if (m.Status() == Manifold::Error::Cancelled) {
     e = Entry();
@@ -257,6 +263,7 @@ std::string job_c06(const Args& a) {
   std::vector<std::vector<Op>> plans;
   for (auto& t : split(a.s("plans"), '|')) plans.push_back(parse_program(t));
   const bool compareAlone = a.i("alone", 1);
+  JArr dump;
   JArr viol;
   uint64_t logEntries = 0;
   bool hasCancel = false;
@@ -304,6 +311,12 @@ std::string job_c06(const Args& a) {
         size_t ia = 0;
         for (size_t ic = 0; ic < tps[t].log.size(); ic++) {
           const Entry& lc = tps[t].log[ic];
+          if (a.i("dump", 0)) {
+            std::string vals;
+            char buf[40];
+            for (double v : lc.solid) { snprintf(buf, sizeof buf, "%.17g ", v); vals += buf; }
+            dump.raw(JObj().i64("thread", (int64_t)t).str("op", lc.op).str("exact", lc.exact).str("solid", vals).done());
+          }
           if (lc.exact == "cancel") continue;
           if (ia >= alone.log.size()) {
             viol.raw(JObj().i64("thread", (int64_t)t).str("clause", "log_length_differs").done());
@@ -324,7 +337,11 @@ std::string job_c06(const Args& a) {
             if (!(std::abs(x - y) <= 1e-7 * (1 + std::abs(x) + std::abs(y)))) bad = true;
           }
           if (bad) {
-            viol.raw(JObj().i64("thread", (int64_t)t).str("clause", "differs_from_serial:" + opname + ":solid").str("op", lc.op).done());
+            std::string got, want;
+            char buf[40];
+            for (double v : lc.solid) { snprintf(buf, sizeof buf, "%.17g ", v); got += buf; }
+            for (double v : la_.solid) { snprintf(buf, sizeof buf, "%.17g ", v); want += buf; }
+            viol.raw(JObj().i64("thread", (int64_t)t).str("clause", "differs_from_serial:" + opname + ":solid").str("op", lc.op).str("got", got).str("want", want).done());
             break;
           }
         }
@@ -334,6 +351,7 @@ std::string job_c06(const Args& a) {
   if (out.exception) viol.raw(JObj().i64("thread", -1).str("clause", "exception:" + out.what).done());
   JObj j;
   j.i64("threads", (int64_t)plans.size()).u64("log_entries", logEntries).raw("viol", viol.done()).raw("sim", outcome_json(out));
+  if (a.i("dump", 0)) j.raw("dump", dump.done());
   return j.done();
 }
 
